@@ -54,15 +54,21 @@ fn bounds_for(prop: &str, tier: &str, th: &Theory) -> Bounds {
     let mut b = Bounds {
         depth: if thorough { m("depth_thorough", 6) } else { m("depth_quick", 4) } as usize,
         prelude_elems: m("elem_cap", 2) as usize,
-        extra_new: m("extra_new", 1) as usize,
+        extra_new: if thorough { m("extra_new", 1) as usize } else { 0 },
         max_defines: if thorough { 2 } else { 1 },
         max_closes: if thorough { 3 } else { 2 },
         state_cap: envu("VERIF_STATE_CAP", if thorough { 1_500_000 } else { 150_000 }) as usize,
-        wall_cap_s: envu("VERIF_THEORY_WALL", if thorough { 900 } else { 25 }),
+        wall_cap_s: envu("VERIF_THEORY_WALL", if thorough { 900 } else { 15 }),
         close_until: prop == "C07",
     };
     if let Ok(d) = std::env::var("VERIF_DEPTH") { b.depth = d.parse().unwrap(); }
     if prop == "C17" { b.depth += 1; }
+    if prop == "C07" {
+        // the budget goes into sequences of early exits and resumptions rather than into more elements
+        b.extra_new = 0;
+        b.max_closes = if thorough { 4 } else { 3 };
+        if !thorough { b.wall_cap_s = envu("VERIF_THEORY_WALL", 10); b.state_cap = envu("VERIF_STATE_CAP", 60_000) as usize; }
+    }
     b
 }
 
